@@ -795,3 +795,135 @@ Section PlaneProofs.
     destruct (cv r c); cbn [nan_mask oq_add oq_div]; split; intros; congruence.
   Qed.
 End PlaneProofs.
+
+(* ================================================================ the whole step *)
+
+Lemma NoDup_span : forall n a, NoDup (span a n).
+Proof.
+  induction n; intros; simpl; constructor.
+  - rewrite in_span. lia.
+  - apply IHn.
+Qed.
+
+Lemma map_fst_combine : forall (A B : Type) (l1 : list A) (l2 : list B),
+  length l1 = length l2 -> map fst (combine l1 l2) = l1.
+Proof.
+  induction l1; destruct l2; simpl; intros; try discriminate; auto.
+  f_equal. apply IHl1. lia.
+Qed.
+
+Lemma nth_map_zrange : forall (B : Type) (f : Z -> B) n s dflt,
+  0 <= s < n -> nth (Z.to_nat s) (map f (zrange 0 n)) dflt = f s.
+Proof.
+  intros. rewrite zrange_span.
+  rewrite (nth_indep _ dflt (f 0)) by (rewrite map_length, span_length; lia).
+  rewrite map_nth. rewrite nth_span by lia. f_equal. lia.
+Qed.
+
+Section FoldPlanes.
+  Variable V : Type.
+  Variable G : Z -> Q -> V.
+  Let step := fun (agg : Z -> V) (kd : Z * Q) => let '(k0, d0) := kd in updz agg k0 (G k0 d0).
+
+  Lemma fold_planes_notin : forall l init k,
+    ~ In k (map fst l) -> fold_left step l init k = init k.
+  Proof.
+    induction l as [|[k0 d0] t]; intros; simpl in *; auto.
+    rewrite IHt by tauto. unfold updz. destruct (k =? k0) eqn:E; auto. exfalso. apply H. left. lia.
+  Qed.
+
+  Lemma fold_planes : forall l init k d,
+    NoDup (map fst l) -> In (k, d) l -> fold_left step l init k = G k d.
+  Proof.
+    induction l as [|[k0 d0] t]; intros init k d Hnd Hin; simpl in *; [tauto|].
+    inversion Hnd; subst. destruct Hin as [Heq | Hin].
+    - inversion Heq; subst. rewrite fold_planes_notin by auto.
+      unfold updz. rewrite Z.eqb_refl. reflexivity.
+    - eapply IHt; eauto.
+  Qed.
+End FoldPlanes.
+
+Lemma px_ext : forall I I' r c,
+  f_nr I = f_nr I' -> f_nc I = f_nc I' ->
+  (forall r c, inside I r c = true -> f_pix I r c = f_pix I' r c) ->
+  px I r c = px I' r c.
+Proof.
+  intros. unfold px. assert (inside I' r c = inside I r c) by (unfold inside; congruence).
+  rewrite H2. destruct (inside I r c) eqn:E; auto.
+Qed.
+
+Lemma spec_arm_ext : forall I I' dist inten dd r c,
+  f_nr I = f_nr I' -> f_nc I = f_nc I' ->
+  (forall r c, inside I r c = true -> f_pix I r c = f_pix I' r c) ->
+  spec_arm I dist inten dd r c = spec_arm I' dist inten dd r c.
+Proof.
+  intros. unfold spec_arm. rewrite (px_ext I I') by auto.
+  destruct (px I' r c); auto. apply ray_arm_ext. intros. unfold ray. apply px_ext; auto.
+Qed.
+
+Lemma i_right_range : forall subpix d, 1 <= subpix -> 0 <= i_right subpix d < subpix.
+Proof.
+  intros. unfold i_right.
+  pose proof (Qfloor_le d) as F1. pose proof (Qlt_floor d) as F2.
+  rewrite inject_Z_plus in F2. change (inject_Z 1) with 1%Q in F2.
+  set (f := (d - inject_Z (Qfloor d))%Q).
+  assert (Hf0 : (0 <= f)%Q) by (unfold f; lra).
+  assert (Hf1 : (f < 1)%Q) by (unfold f; lra).
+  assert (Hs : (0 < inject_Z subpix)%Q).
+  { change 0%Q with (inject_Z 0). rewrite <- Zlt_Qlt. lia. }
+  set (y := (f * inject_Z subpix)%Q).
+  assert (Hy0 : (0 <= y)%Q) by (unfold y; apply Qmult_le_0_compat; lra).
+  assert (Hy1 : (y < inject_Z subpix)%Q).
+  { unfold y. setoid_replace (inject_Z subpix) with (1 * inject_Z subpix)%Q at 2 by ring.
+    apply Qmult_lt_r; auto. }
+  split.
+  - change 0 with (Qfloor 0). apply Qfloor_resp_le. exact Hy0.
+  - rewrite Zlt_Qlt. eapply Qle_lt_trans; [apply Qfloor_le | exact Hy1].
+Qed.
+
+(* the filtered images as the specification sees them: size of the computable area of the
+   cost volume (the images are cropped by the window offset after filtering) *)
+Definition spec_left (x : cbca_in) : fimg :=
+  mkF (cnr x) (cnc x) (crop (i_off x) (left_filtered x)).
+Definition spec_right (x : cbca_in) (s : Z) : fimg :=
+  mkF (cnr x) (cncR x s) (crop (i_off x) (right_filtered x s)).
+
+Definition nth_disp (x : cbca_in) (k : Z) : Q := nth (Z.to_nat k) (i_disps x) 0%Q.
+Definition n_disp (x : cbca_in) : Z := Z.of_nat (length (i_disps x)).
+Definition out_at (x : cbca_in) (k r c : Z) : option Q :=
+  lookup None (nth (Z.to_nat k) (cbca_volume x) []) r c.
+
+(* value of the aggregated volume at (k, r, c) in terms of the plane function *)
+Lemma volume_at : forall x k r c,
+  1 <= i_subpix x -> 0 <= k < n_disp x -> 0 <= r < i_nr x -> 0 <= c < i_nc x ->
+  let d := nth_disp x k in
+  let s := i_right (i_subpix x) d in
+  out_at x k r c =
+  if in_crop x r c
+  then lookup None (plane_out (cnr x) (cnc x) (cncR x s)
+                              (lookup arms0 (cross_left_table x))
+                              (lookup arms0 (cross_right_table x s)) d
+                              (crop (i_off x) (i_cv x k)))
+              (r - i_off x) (c - i_off x)
+  else i_cv x k r c.
+Proof.
+  intros x k r c Hsub Hk Hr Hc d s. unfold out_at, cbca_volume, n_disp in *.
+  rewrite nth_map_zrange by lia. rewrite lookup_tabulate by lia.
+  destruct (in_crop x r c) eqn:E; [|reflexivity].
+  f_equal. unfold cbca_planes.
+  rewrite (fold_planes _ (fun k0 d0 =>
+     plane_out (cnr x) (cnc x) (cncR x (i_right (i_subpix x) d0))
+       (lookup arms0 (cross_left_table x))
+       (lookup arms0 (nth (Z.to_nat (i_right (i_subpix x) d0))
+                          (map (cross_right_table x) (zrange 0 (i_subpix x))) []))
+       d0 (crop (i_off x) (i_cv x k0))) _ _ k d).
+  - fold s. rewrite nth_map_zrange by (apply i_right_range; lia). reflexivity.
+  - rewrite map_fst_combine by (rewrite zrange_span, span_length; lia).
+    rewrite zrange_span. apply NoDup_span.
+  - assert (Hlen : length (zrange 0 (Z.of_nat (length (i_disps x)))) = length (i_disps x)).
+    { rewrite zrange_span, span_length. lia. }
+    replace (k, d) with (nth (Z.to_nat k) (combine (zrange 0 (Z.of_nat (length (i_disps x)))) (i_disps x)) (0, 0%Q)).
+    + apply nth_In. rewrite combine_length, Hlen. lia.
+    + rewrite combine_nth by auto. f_equal.
+      rewrite zrange_span, nth_span by lia. lia.
+Qed.
